@@ -11,7 +11,7 @@ from ptstat import AnalysisError
 from ptstat.symval import SymObj, Phi, SymRaise, Vec
 from ptstat.symlib import interp_f, vec_f
 from spec import neutron as spec
-from .common import eq, fsite, folder, _s, constants_lint, raises
+from .common import eq, fsite, folder, _s, constants_lint, raises, table_data
 from .nworld import neutron_world
 
 EXPLANATION = (
@@ -29,7 +29,7 @@ EXPLANATION = (
 def _tables(ctx):
     F = folder(ctx)
     rows = [l.split(",") for l in F.const("nsf", "nsftable").split("\n")]
-    ed = F.const("nsf_tables", "ENERGY_DEPENDENT_TABLES")
+    ed = table_data(ctx, "nsf_tables", "ENERGY_DEPENDENT_TABLES")
     return rows, ed
 
 
